@@ -62,8 +62,11 @@ def real_env(jit):
     return env
 
 
-def run_replay(path, jit, timeout=600):
-    p = subprocess.run([VENV_PY, os.path.join(VERIF, "replay.py"), path], env=real_env(jit), capture_output=True, text=True, timeout=timeout)
+def run_replay(path, jit, timeout=600, fill=None):
+    env = real_env(jit)
+    if fill:
+        env["NUSYM_EMPTY_FILL"] = fill
+    p = subprocess.run([VENV_PY, os.path.join(VERIF, "replay.py"), path], env=env, capture_output=True, text=True, timeout=timeout)
     return p.returncode, (p.stdout + p.stderr).strip()
 
 
@@ -150,10 +153,14 @@ class Check:
         path = self._replay_file(v)
         infos = []
         ok_any = False
-        modes = v.get("modes", ["jit", "interpreted"])
+        modes = list(v.get("modes", ["jit", "interpreted"]))
+        if v.get("havoc_dependent"):
+            # the path condition mentions cells of an np.empty array: the real run depends on what that memory happens to hold;
+            # np.empty may return any content, so the replay also tries the two uniform byte patterns (interpreted mode)
+            modes += ["interpreted+00", "interpreted+ff"]
         for mode in modes:
             try:
-                rc, out = run_replay(path, jit=(mode == "jit"))
+                rc, out = run_replay(path, jit=(mode == "jit"), fill=(mode.split("+")[1] if "+" in mode else None))
             except subprocess.TimeoutExpired:
                 rc, out = 99, "replay timed out"
             infos.append(out[-600:])
